@@ -11,7 +11,18 @@
       5 Load parked in a block fetch, 6 instance Close with several databases, 7 idle with a
       legacy Subscribe(ctx) whose context stays live, 8 after the whole API was exercised on
       the closed store, 9 instance Close after a Drop, 10 real pubsub adapter and direct
-      channel, 11 a replication worker inside a block fetch that succeeds after Close;
+      channel, 11 a replication worker inside a block fetch that succeeds after Close,
+      12-15 replication workers inside a block fetch that never completes (a block nobody
+      provides), the request coming from Sync (12), a LoadMoreFrom still running (13), the saved
+      queue of LoadFromSnapshot (14), the missing ancestors of an unlimited Load (15),
+      16 right after Drop of a store with such a fetch in flight (instance still open),
+      17 instance Close with databases of mixed configurations and such fetches in flight,
+      18 Load itself inside a block fetch that never completes, 19 LoadFromSnapshot inside a
+      fetch of the snapshot file that never completes;
+    - configurations: [Lifecycle.config] (Replicate, ":memory:" instance, MaxHistory);
+    - addresses are carried as root number + FULL path (one [seg] per path segment): databases
+      that share a manifest root (/orbitdb/r/demo, /orbitdb/r/archive/demo, /orbitdb/r/demo/sub)
+      are told apart by [datastore_key], as the cache manager does;
     - creation sites: [Lifecycle.site_of];  operations: position in [Lifecycle.all_ops];
     - outcome classes: 0 ok, 1 error, 2 panic, 3 no answer within the watchdog. *)
 From Orbit Require Export Corr.Common Model.Lifecycle Model.Current.
@@ -19,24 +30,32 @@ From Orbit Require Export Corr.Common Model.Lifecycle Model.Current.
 (** the switches of /repo as it stands (Model/Current.v) *)
 Definition sw_current : switches :=
   mkSw c18_progress_drains_current c18_close_unsubscribes_current
-       c18_rejects_dotdot_current c18_destroy_inline_current.
+       c18_rejects_dotdot_current c18_destroy_inline_current c18_load_bound_current
+       c18_destroy_own_files_current.
 
 Inductive case :=
-(* Close (of the store, or of the instance for when = 6, 9, 10) called [times] times, one after
+(* [cfgs]: the configuration of the store, or of every database of the instance.
+   Close (of the store, or of the instance for when = 6, 9, 10, 17) called [times] times, one after
    the other or concurrently: the set of go-orbit-db creation sites of goroutines that did not
    exist before the store was opened and are still there after a bounded settle; the outcome
    class of every Close call *)
-| CClose (when : N) (times : nat) (concurrent : bool) (leaked_sites : list N) (errors : list N)
+| CClose (cfgs : list config) (when : N) (times : nat) (concurrent : bool) (leaked_sites : list N) (errors : list N)
 (* an API operation invoked on the closed store (or in flight while it was closed) *)
 | CAfterClose (op : N) (outcome : N)
-(* the directory reopened by a fresh instance, Load(-1): acknowledged vs present entries *)
-| CReopen (acked : list N) (present : list N) (ok : bool)
+(* the directory reopened by a fresh instance, Load(-1): acknowledged vs present entries
+   (a ":memory:" instance: a fresh ":memory:" instance) *)
+| CReopen (cfg : config) (acked : list N) (present : list N) (ok : bool)
 (* Drop of the database (droot, dpath) opened from directory [dir] while (sroot, spath) lives in
    the same directory: was the address accepted by Open; outcome class of Drop; did the
    dropped database reopen empty with its directory gone; are the sibling's cache keys,
-   directory and (after a reopen of the directory) entries all there *)
-| CDrop (dir : list N) (droot : N) (dpath : list seg) (sroot : N) (spath : list seg)
-        (opened : bool) (drop_outcome : N) (dropped_empty : bool) (sibling_intact : bool).
+   directory and (after a reopen of the directory) entries all there; [cfg]: of the dropped store
+   (":memory:": nothing on disk before or after, the sibling is checked live only) *)
+| CDrop (cfg : config) (dir : list N) (droot : N) (dpath : list seg) (sroot : N) (spath : list seg)
+        (opened : bool) (drop_outcome : N) (dropped_empty : bool) (sibling_intact : bool)
+(* database (croot, cpath) of an instance on [dir] was closed; then a write on the open database
+   (sroot, spath) of the same instance (typically one that shares the manifest root): its
+   outcome class *)
+| CSibling (dir : list N) (croot : N) (cpath : list seg) (sroot : N) (spath : list seg) (write_outcome : N).
 
 Definition all_zero (l : list N) : bool := forallb (N.eqb 0) l.
 
@@ -48,11 +67,11 @@ Fixpoint subsetN (a b : list N) : bool :=
 
 Definition check (c : case) : bool * bool :=
   match c with
-  | CClose when times concurrent leaked errors =>
+  | CClose cfgs when times concurrent leaked errors =>
     (* the model: every Close call returns nil (the first through the open branch, the others
        through isClosed); what is left is what no raised signal wakes *)
     let predicted_errors := repeat 0%N times in
-    (listN_eqb leaked (predicted_leaks sw_current when) && listN_eqb errors predicted_errors,
+    (listN_eqb leaked (predicted_leaks sw_current cfgs when) && listN_eqb errors predicted_errors,
      match leaked with [] => true | _ => false end && all_zero errors && Nat.eqb (length errors) times)
   | CAfterClose op outcome =>
     (match op_of_code op with
@@ -60,16 +79,22 @@ Definition check (c : case) : bool * bool :=
      | None => false
      end,
      (outcome <=? 1)%N)
-  | CReopen acked present ok =>
-    (ok && subsetN acked present, ok && subsetN acked present)
-  | CDrop dir droot dpath sroot spath opened outcome dropped_empty sibling_intact =>
+  | CReopen cfg acked present ok =>
+    (* the model: on disk everything acknowledged is found again; in memory nothing is *)
+    (ok && (if durable cfg then subsetN acked present else match present with [] => true | _ => false end),
+     ok && (if durable cfg then subsetN acked present else true))
+  | CDrop cfg dir droot dpath sroot spath opened outcome dropped_empty sibling_intact =>
     let accepted := address_accepted sw_current dpath in
-    let sibling_survives := negb (drop_removes dir droot dpath (datastore_key dir sroot spath)) in
+    let sibling_survives := negb (drop_removes sw_current cfg dir droot dpath (datastore_key dir sroot spath)) in
     (Bool.eqb opened accepted &&
      (if opened
       then Bool.eqb sibling_intact sibling_survives && dropped_empty && N.eqb outcome 0
       else sibling_intact),
      sibling_intact && (if opened then dropped_empty && N.eqb outcome 0 else true))
+  | CSibling dir croot cpath sroot spath outcome =>
+    (* the model: the two share a leveldb exactly when their cache keys (root and FULL path)
+       coincide; only then does closing the one close the cache under the other *)
+    (N.eqb (class_of (write_after_sibling_close dir croot cpath sroot spath)) outcome, N.eqb outcome 0)
   end.
 
 Definition failures (base : nat) (cs : list case) := failures_from check base cs.
